@@ -27,8 +27,10 @@ def execute(files, argv, stdin_bytes=None, dirs=(), env=None, keep_contents=True
     """files: [(relative name, bytes)], argv: CLI arguments (relative paths refer to the work dir)."""
     faults.install_parser_fault()
     faults.reset_counters()
-    work = tempfile.mkdtemp(prefix="vhs-", dir="/dev/shm" if os.path.isdir("/dev/shm") else None)
-    tmpd = os.path.join(work, "_tmp")
+    base = tempfile.mkdtemp(prefix="vhs-", dir="/dev/shm" if os.path.isdir("/dev/shm") else None)
+    work = os.path.join(base, "w")               # the scratch TMPDIR is a sibling, so that `*` and `.` see only the scenario's files
+    tmpd = os.path.join(base, "_tmp")
+    os.mkdir(work)
     os.mkdir(tmpd)
     for d in dirs:
         os.makedirs(os.path.join(work, d), exist_ok=True)
@@ -58,11 +60,10 @@ def execute(files, argv, stdin_bytes=None, dirs=(), env=None, keep_contents=True
             else:
                 os.environ[k] = v
     after = snapshot(work)
-    pre = "_tmp" + os.sep
-    left = sorted(k for k in after if k.startswith(pre))
+    left = sorted("_tmp" + os.sep + k for k in snapshot(tmpd))
     changed = sorted(k for k in before if k in after and after[k] != before[k])
     deleted = sorted(k for k in before if k not in after)
-    created = sorted(k for k in after if k not in before and not k.startswith(pre))
+    created = sorted(k for k in after if k not in before)
     contents = {}
     if keep_contents:
         for n, _ in files:
@@ -70,7 +71,7 @@ def execute(files, argv, stdin_bytes=None, dirs=(), env=None, keep_contents=True
             if os.path.exists(p):
                 with open(p, "rb") as f:
                     contents[n] = f.read()
-    shutil.rmtree(work, ignore_errors=True)
+    shutil.rmtree(base, ignore_errors=True)
     return {"argv": list(argv), "code": res.code, "exc": res.exc, "out": res.out, "err": res.err, "events": res.events,
             "left": left, "changed": changed, "deleted": deleted, "created": created,
             "names": [n for n, _ in files], "contents": contents}
